@@ -6,6 +6,7 @@ pub mod c01;
 pub mod c02;
 pub mod c03;
 pub mod c04;
+pub mod c05;
 pub mod c12;
 pub mod c13;
 pub mod c14;
@@ -21,6 +22,7 @@ pub fn lookup(id: &str) -> Option<PropDef> {
         "C02" => Some(("C02", c02::TITLE, c02::parts(), c02::RULE, c02::assumptions())),
         "C03" => Some(("C03", c03::TITLE, c03::parts(), c03::RULE, c03::assumptions())),
         "C04" => Some(("C04", c04::TITLE, c04::parts(), c04::RULE, c04::assumptions())),
+        "C05" => Some(("C05", c05::TITLE, c05::parts(), c05::RULE, c05::assumptions())),
         "C12" => Some(("C12", c12::TITLE, c12::parts(), c12::RULE, c12::assumptions())),
         "C13" => Some(("C13", c13::TITLE, c13::parts(), c13::RULE, c13::assumptions())),
         "C15" => Some(("C15", c15::TITLE, c15::parts(), c15::RULE, c15::assumptions())),
